@@ -322,8 +322,44 @@ def enum_shapes():
     return out
 
 
+def into_impl_set_shape():
+    """Repeated `#[into(..)]` attributes: the set of generated impls is exactly one per listed reference kind - presence AND absence,
+    decided by rustc's trait resolution (has_from!) and evaluated as concrete assertions."""
+    D = "#[derive(Clone, Copy, PartialEq, Debug, derive_more::Into)]\n"
+    decl = (D + "#[into(owned)]\n#[into(ref)]\npub struct OR(pub A, pub B);\n" +
+            D + "#[into(owned)]\n#[into(ref_mut)]\npub struct OM { pub a: A, pub b: B }\n" +
+            D + "#[into(ref)]\n#[into(ref_mut)]\npub struct RM(pub A, pub B);\n" +
+            D + "#[into(ref_mut)]\n#[into(ref)]\npub struct MR(pub A);\n" +
+            D + "#[into(ref)]\npub struct R(pub A, pub B);\n" +
+            D + "pub struct FL(#[into(owned)] #[into(ref)] pub A, pub B);")
+    src = """    #[kani::proof]
+    fn into_impls_are_exactly_the_listed_kinds() {
+        assert!(has_from!((A, B), OR) && has_from!((&'static A, &'static B), &'static OR), "#[into(owned)] #[into(ref)]: both listed kinds must exist");
+        assert!(!has_from!((&'static mut A, &'static mut B), &'static mut OR), "#[into(owned)] #[into(ref)]: nobody asked for the &mut impl");
+        assert!(has_from!((A, B), OM) && has_from!((&'static mut A, &'static mut B), &'static mut OM), "#[into(owned)] #[into(ref_mut)]: both listed kinds must exist");
+        assert!(!has_from!((&'static A, &'static B), &'static OM), "#[into(owned)] #[into(ref_mut)]: nobody asked for the & impl");
+        assert!(has_from!((&'static A, &'static B), &'static RM) && has_from!((&'static mut A, &'static mut B), &'static mut RM));
+        assert!(!has_from!((A, B), RM), "#[into(ref)] #[into(ref_mut)]: no owned impl");
+        assert!(has_from!(&'static A, &'static MR) && has_from!(&'static mut A, &'static mut MR) && !has_from!(A, MR));
+        assert!(has_from!((&'static A, &'static B), &'static R) && !has_from!((A, B), R) && !has_from!((&'static mut A, &'static mut B), &'static mut R));
+        assert!(has_from!(A, FL) && has_from!(&'static A, &'static FL) && !has_from!(&'static mut A, &'static mut FL), "field-level repeated attributes");
+        let a = A(kani::any());
+        let b = B(kani::any());
+        let s = OR(a, b);
+        let (ra, rb): (&A, &B) = (&s).into();
+        assert!(ptr::eq(ra, &s.0) && ptr::eq(rb, &s.1));
+        kani::cover!(true, "reach end");
+    }
+"""
+    hs = [Harness("into_impls_are_exactly_the_listed_kinds", "field values free u16 (the impl-set assertions are concrete: rustc's trait resolution)", covers=1,
+                  asserts="for repeated #[into(..)] attributes in every order: an impl exists for exactly the listed kinds (owned / ref / ref_mut), on struct and on field level")]
+    return Shape("c08_into_impl_set_repeated_attributes", module(decl, src), hs, decl.replace("\n", " "),
+                 exercises=["impl/src/into.rs::ConversionsAttribute::merge_attrs", "impl/src/into.rs::Expansion"])
+
+
 def shapes(tier):
     out = []
+    out.append(into_impl_set_shape())
     out.append(plain_shape(St("unit", [])))
     for kind in ("tuple", "named"):
         for n in (0, 1, 2, 3):
